@@ -131,6 +131,10 @@ VARIANTS = {
     'C05': [
         fire('int-key-decoded-conditionally', B, '_get_key', "if k.startswith('n_:'):", "if k.startswith('n_:') and k[3:].isdigit():",
              'C05.c', '_get_key'),
+        fire('from-json-consumes-input', 'pyglove/core/utils/json_conversion.py', 'from_json', 'json_value = dict(json_value)', 'pass', 'C05.l', 'json_conversion.from_json'),
+        fire('line-reader-eof-after-strip', 'pyglove/core/io/sequence.py', 'LineSequence._iter', 'line = self._file.readline()', "line = self._file.readline().rstrip('\\n')", 'C05.j', 'LineSequence._iter'),
+        fire('jsonify-drops-empty', D, 'Dict.sym_jsonify', 'if hide_default_values and base.eq(value, field.default_value):', 'if hide_default_values and (base.eq(value, field.default_value) or not value):', 'C05.k', 'Dict.sym_jsonify'),
+        silent('from-json-copy-by-method', 'pyglove/core/utils/json_conversion.py', 'from_json', 'json_value = dict(json_value)', 'json_value = json_value.copy()'),
         fire('prefix-mismatch', B, '_encode_int_keys', "f'n_:{k}'", "f'i_:{k}'", 'C05.c', '_get_key'),
         fire('enum-from-json-removed', VS, 'Enum.from_json', "json_value.setdefault('default', MISSING_VALUE)", 'pass',
              'C05.a', 'Enum#default'),
